@@ -3,6 +3,7 @@
 # Confirms in a scratch worktree: demo passes without the patch, fails with it; the suite (minus the podman-dependent
 # root package) passes with it. Prints a JSON summary.
 D=$1
+N=$(basename "$D")
 export GOFLAGS=-mod=mod GOPROXY=off GOSUMDB=off GOTOOLCHAIN=local; unset GOWORK
 WT=$(mktemp -d /tmp/vseed.XXXXXX)
 git -C /repo worktree add --detach "$WT" HEAD -q
@@ -22,13 +23,13 @@ case "$PKGLINE" in
 esac
 cp "$D/demo_test.go" "$WT/$PKG/zz_seed_demo_test.go"
 for extra in "$D"/*_test.go; do b=$(basename "$extra"); [ "$b" != demo_test.go ] && cp "$extra" "$WT/$PKG/zz_$b"; done 2>/dev/null
-RACE=""; grep -qi "\-race" "$D/notes.md" 2>/dev/null && RACE=""
+RACE=""; [ -n "$SEED_RACE" ] && RACE="-race"   # SEED_RACE=1: run the demonstration under the race detector
 cd "$WT"
 NAMES=$(grep -ho '^func Test[A-Za-z0-9_]*' "$PKG/zz_seed_demo_test.go" | sed 's/func //' | paste -sd'|')
-timeout 600 go test -vet=off -count=1 -run "^($NAMES)\$" ./$PKG > /tmp/vseed_without.log 2>&1; W=$?
+timeout 900 go test $RACE -vet=off -count=1 -run "^($NAMES)\$" ./$PKG > /tmp/vseed_${N}_without.log 2>&1; W=$?
 git apply "$D/patch.diff" || { echo "{\"seed\":\"$D\",\"error\":\"patch does not apply\"}"; exit 1; }
-go build ./... > /tmp/vseed_build.log 2>&1; B=$?
-timeout 600 go test -vet=off -count=1 -run "^($NAMES)\$" ./$PKG > /tmp/vseed_with.log 2>&1; X=$?
+go build ./... > /tmp/vseed_${N}_build.log 2>&1; B=$?
+timeout 900 go test $RACE -vet=off -count=1 -run "^($NAMES)\$" ./$PKG > /tmp/vseed_${N}_with.log 2>&1; X=$?
 rm -f "$PKG"/zz_*_test.go
-timeout 1200 go test -vet=off -count=1 $(go list ./... | grep -v '^go.flow.arcalot.io/engine$') > /tmp/vseed_suite.log 2>&1; S=$?
-echo "{\"seed\":\"$(basename $D)\",\"pkg\":\"$PKG\",\"tests\":\"$NAMES\",\"demo_without_patch_exit\":$W,\"build_with_patch_exit\":$B,\"demo_with_patch_exit\":$X,\"suite_with_patch_exit\":$S}"
+timeout 1200 go test -vet=off -count=1 $(go list ./... | grep -v '^go.flow.arcalot.io/engine$') > /tmp/vseed_${N}_suite.log 2>&1; S=$?
+echo "{\"seed\":\"$(basename $D)\",\"pkg\":\"$PKG\",\"tests\":\"$NAMES\",\"demo_without_patch_exit\":$W,\"build_with_patch_exit\":$B,\"demo_with_patch_exit\":$X,\"suite_with_patch_exit\":$S,\"race\":\"$RACE\"}"
